@@ -165,7 +165,11 @@ def check(ctx):
                 ctx.fail("simulate of a two-underlier derivative raised", case, key="simulate:multi-underlier:error", detail=v)
                 break
             want = expected_points(kk * dtm, dtm)
-            shapes = [tuple(u_.spot.shape) for u_ in sp.underliers()]
+            try:
+                shapes = [tuple(u_.spot.shape) for u_ in sp.underliers()]
+            except AttributeError:
+                ctx.fail("an underlier of a derivative was not simulated", case | {"maturity": kk * dtm}, key="simulate:multi-underlier:grid")
+                break
             if any(sh[0] != 2 or sh[1] not in want for sh in shapes) or tuple(sp.payoff().shape) != (2,):
                 ctx.fail("not every underlier of a derivative is simulated on the grid of the current maturity", case | {"maturity": kk * dtm},
                          key="simulate:multi-underlier:grid", detail={"shapes": shapes, "expected_points": sorted(want)})
